@@ -114,6 +114,10 @@ func c19TxBuild(c c19TxCase) (input []byte, applied c19x.Applied, headerIsJSON b
 
 func c19TxRun(x *h.Ctx, c c19TxCase) {
 	input, applied, hdrJSON := c19TxBuild(c)
+	if applied.Oversize {
+		x.Class("skipped:oversize")
+		return
+	}
 	for _, cl := range applied.Classes() {
 		x.Class(cl)
 	}
